@@ -38,3 +38,27 @@ func Keyed(seed Seed, s string) uint64 {
 	}
 	return h
 }
+
+// Alloc / Free stand for the pooled allocator (mcache.Malloc / mcache.Free, tools/gotrans allocFns):
+// Alloc(size[, capacity]) returns fresh memory of length size and capacity max(size, capacity)
+// whose content the program must not depend on (here 0xA0 + the number of earlier allocations
+// modulo 16, in every byte up to the capacity); Free records the capacity it is given.
+var (
+	Allocs int
+	Freed  []int
+)
+
+func Alloc(size int, capacity ...int) []byte {
+	c := size
+	if len(capacity) > 0 && capacity[0] > size {
+		c = capacity[0]
+	}
+	b := make([]byte, c)
+	for i := range b {
+		b[i] = byte(0xA0 + Allocs%16)
+	}
+	Allocs++
+	return b[:size]
+}
+
+func Free(b []byte) { Freed = append(Freed, cap(b)) }
